@@ -96,8 +96,9 @@ def run(ctx):
     zero = [a for a in ACTIONS if cov.get(a, (0, 0))[1] == 0]
     if zero:
         raise tlc.MachineryError("actions never taken in the exhaustive model: %s" % zero)
+    wconsts = {"Versions": {1, 5}, "MaxLen": 4}       # reachable in a small model => reachable in the explored one
     for w in WITNESSES:
-        wcfg = tlc.write_cfg(os.path.join(ctx.scratch, w + ".cfg"), constants=consts, invariants=[w], deadlock=False)
+        wcfg = tlc.write_cfg(os.path.join(ctx.scratch, w + ".cfg"), constants=wconsts, invariants=[w], deadlock=False)
         wres = tlc.check_model("Handshake", wcfg, ctx.scratch, timeout=600)
         if wres.invariant != w:
             raise tlc.MachineryError("vacuity witness %s not reachable" % w)
